@@ -1,6 +1,7 @@
 package props
 
 import (
+	"errors"
 	"fmt"
 	"strings"
 	"time"
@@ -75,18 +76,23 @@ func c03Expect(f string) []errSpec {
 }
 
 func errMatches(err error, specs []errSpec) bool {
-	if v, ok := err.(saml2.ErrVerification); ok {
-		err = v.Cause
+	// errors.As: a typed error stays typed when a refactor wraps it
+	var ev saml2.ErrVerification
+	if errors.As(err, &ev) && ev.Cause != nil {
+		err = ev.Cause
 	}
 	var typ string
 	var names []string
-	switch e := err.(type) {
-	case saml2.ErrMissingElement:
-		typ, names = "missing", []string{e.Tag, e.Attribute}
-	case saml2.ErrInvalidValue:
-		typ, names = "invalid", []string{e.Key}
-	case saml2.ErrParsing:
-		typ, names = "parsing", []string{e.Tag}
+	var em saml2.ErrMissingElement
+	var ei saml2.ErrInvalidValue
+	var ep saml2.ErrParsing
+	switch {
+	case errors.As(err, &em):
+		typ, names = "missing", []string{em.Tag, em.Attribute}
+	case errors.As(err, &ei):
+		typ, names = "invalid", []string{ei.Key}
+	case errors.As(err, &ep):
+		typ, names = "parsing", []string{ep.Tag}
 	default:
 		return false
 	}
